@@ -718,18 +718,14 @@ fn get_where_filters(params: &EntityParams, prepared_query: &mut SingleQuery, t:
                                         v, operation, &value
                                     ));
                                 }
-                                ParamValue::String(v) => {
+                                ParamValue::String(v) | ParamValue::Binary(v) => {
+                                    // bound, never spliced: the default value is free text
+                                    let default_param =
+                                        prepared_query.add_param(String::from(v), true);
                                     tab(&mut q, t + 1);
                                     q.push_str(&format!(
-                                        "WHEN '{}' {} {} THEN ",
-                                        v, operation, &value
-                                    ));
-                                }
-                                ParamValue::Binary(v) => {
-                                    tab(&mut q, t + 1);
-                                    q.push_str(&format!(
-                                        "WHEN '{}' {} {} THEN ",
-                                        v, operation, &value
+                                        "WHEN {} {} {} THEN ",
+                                        default_param, operation, &value
                                     ));
                                 }
                                 _ => unreachable!(),
